@@ -2,7 +2,7 @@
     Depends on Model/ only, so it builds (and the correspondence check runs) even when a
     proof obligation of some property is broken. *)
 From Coq Require Import List ZArith NArith Bool.
-From CqlProxy Require Import Lib.Val Lib.Util Model.Config Model.LB Model.Codec Model.Retry Model.Frame Model.Override Model.Gate Model.Streams Model.Classify Model.Handled Model.SysTables Model.OneReply Model.Sessions Model.Prepared Model.Events Model.Topology Model.Hostile.
+From CqlProxy Require Import Lib.Val Lib.Util Model.Config Model.LB Model.Codec Model.Retry Model.Frame Model.Override Model.Gate Model.Streams Model.Classify Model.Handled Model.SysTables Model.OneReply Model.Sessions Model.Prepared Model.Events Model.Topology Model.Hostile Model.Astra.
 Import ListNotations.
 Local Open Scope N_scope.
 
@@ -25,6 +25,7 @@ Definition run_prop (prop : bytes) (input : val) : val :=
   else if bytes_eqb prop (str "C14") then run_c14 input
   else if bytes_eqb prop (str "C16") then run_c16 input
   else if bytes_eqb prop (str "C17") then run_c17 input
+  else if bytes_eqb prop (str "C19") then run_c19 input
   else L [B (str "unknown-property")].
 
 Definition holds_prop (prop : bytes) (input output : val) : val :=
@@ -46,6 +47,7 @@ Definition holds_prop (prop : bytes) (input output : val) : val :=
   else if bytes_eqb prop (str "C14") then holds_c14 input output
   else if bytes_eqb prop (str "C16") then holds_c16 input output
   else if bytes_eqb prop (str "C17") then holds_c17 input output
+  else if bytes_eqb prop (str "C19") then holds_c19 input output
   else B (str "unknown-property").
 
 (** One line of the case file: [input TAB impl_output]  ->  [model_output TAB holds]. *)
